@@ -312,7 +312,7 @@ def dkl_wishart(a1, B1, a2, B2):
         lw2 += psi((a2 - i) / 2)
     lz1 = 0.5 * a1 * dim * math.log(2) - 0.5 * a1 * math.log(d1) + lg1
     lz2 = 0.5 * a2 * dim * math.log(2) - 0.5 * a2 * math.log(d2) + lg2
-    dkl = (a1 - dim - 1) * lw1 - (a2 - dim - 1) * lw2 - a1 * dim
+    dkl = (a1 - dim - 1) * lw1 - (a2 - dim - 1) * lw1 - a1 * dim
     dkl += a1 * np.trace(np.dot(B2, inv(B1)))
     dkl /= 2
     dkl += (lz2 - lz1)
